@@ -56,7 +56,7 @@ def scenario(ctx, i):
         T[0] = np.where(T[0] == 0, 1.0, T[0])
         sigma = np.rint(sigma * 2.0) + 1.0
     parts = gen.random_composition(r, ns)
-    return dict(int_params=int_params, route=["fresh", "fresh", "reused", "reused_sigma", "reused_T"][int(r.integers(0, 5))], kind=kind, C=C, D=D, R=R, w=w, m=m, v=v, T=T, sigma=sigma, sts=sts, parts=parts, update_sigma=True if kind == "floor" else bool((i // 4 + i) % 2 == 0),
+    return dict(int_params=int_params, route=["fresh", "fresh", "reused", "reused_sigma", "reused_T", "pickled", "deepcopied"][int(r.integers(0, 7))], kind=kind, C=C, D=D, R=R, w=w, m=m, v=v, T=T, sigma=sigma, sts=sts, parts=parts, update_sigma=True if kind == "floor" else bool((i // 4 + i) % 2 == 0),
                 floor=floor, iters=int(r.integers(1, 4)), seed=int(r.integers(0, 10**6)))
 
 
@@ -105,6 +105,12 @@ def mk_machine(sc, iters=1):
     if sc.get("int_params"):
         iv.T = np.array(sc["T"]).astype(np.int64)
         iv.sigma = np.array(sc["sigma"]).astype(np.int64)
+    if route in ("pickled", "deepcopied"):
+        # the configured machine went through a pickle round trip / a deep copy (what shipping it to a worker does): same machine
+        import copy
+        import pickle
+
+        iv = pickle.loads(pickle.dumps(iv)) if route == "pickled" else copy.deepcopy(iv)
     return iv
 
 
